@@ -478,7 +478,18 @@ func init() {
 		p.log = append(p.log, "timer")
 		return zeroValue(recv.(OpaqueV).data.(types.Type))
 	}
-	reg("time.Now", func(p *Path, fn *ssa.Function, a []Value) Value { return zeroValue(fn.Signature.Results().At(0).Type()) })
+	reg("time.Now", func(p *Path, fn *ssa.Function, a []Value) Value {
+		z := zeroValue(fn.Signature.Results().At(0).Type())
+		// with a harness clock (verif_SetEpoch) the epoch is carried in Time.ext
+		if ep, ok := p.aux["epoch"].(int); ok && ep > 0 {
+			sv := z.(StructV)
+			f := append([]Value(nil), sv.f...)
+			f[1] = mkInt64(int64(ep))
+			sv.f = f
+			return sv
+		}
+		return z
+	})
 	reg("time.Since", func(p *Path, fn *ssa.Function, a []Value) Value { return mkInt64(0) })
 	reg("(time.Time).Sub", func(p *Path, fn *ssa.Function, a []Value) Value { return mkInt64(0) })
 	reg("time.NewTimer", func(p *Path, fn *ssa.Function, a []Value) Value {
